@@ -235,10 +235,10 @@ def resize(L, f, v, filler=0x00):
     return out
 
 
-def length_grid(L, fields, nexts=NEXT, which=('T', 'X')):
+def length_grid(L, fields, nexts=NEXT, nexts_own=NEXT, which=('T', 'X')):
     """(b): every field x {0..5, exact, exact+-1, max} x {field only, consistent} x next-payload octet in `nexts`
-    written either into the octet declaring the enclosing payload's type (T) or into the structure's own
-    next/more octet (X)."""
+    written either into the octet declaring the enclosing payload's type (T, alphabet `nexts`) or into the
+    structure's own next/more octet (X, alphabet `nexts_own`)."""
     L = bytes(L)
     for f in fields:
         for v in grid_values(f):
@@ -256,7 +256,10 @@ def length_grid(L, fields, nexts=NEXT, which=('T', 'X')):
                     pos = f.type_byte if w == 'T' else f.own_next
                     if pos >= limit and mode == 'C':
                         continue
-                    for n in nexts:
+                    big = len(base) > 4096       # a structure really extended to 0xFFFF octets: next octet unchanged
+                    if big and w != 'T':
+                        continue
+                    for n in ((base[pos],) if big else nexts if w == 'T' else nexts_own):
                         out = bytearray(base)
                         out[pos] = n
                         yield 'b-grid', bytes(out), {'field': f.label, 'value': v, 'mode': mode + w, 'next': n}
